@@ -1,8 +1,8 @@
 SPECIFICATION Spec
 CONSTANTS
-  MaxDepth = 2
-  MaxLen = 4
-  NKeys = 3
+  MaxDepth = 3
+  MaxLen = 6
+  NKeys = 2
 VIEW view
 INVARIANT TypeOK
 INVARIANT OutermostIsBase
